@@ -8,6 +8,10 @@ from typing import NamedTuple
 import unicodedata
 
 
+# Structural key of a value: equal keys <=> equal values (used by `ㄴ` and Dict)
+Key = typing.Hashable
+
+
 def _get_width(s: str) -> int:
     return sum(2 if unicodedata.east_asian_width(c) in "FW" else 1 for c in s)
 
@@ -90,8 +94,8 @@ class Integer:
     def __eq__(self, other: object) -> bool:
         return isinstance(other, Number) and self.value == other.value
 
-    def as_key(self) -> typing.Generator[Value, StrictValue, int]:
-        return hash(self.value)
+    def as_key(self) -> typing.Generator[Value, StrictValue, Key]:
+        return self.value
         yield
 
     def format(self) -> typing.Generator[Value, StrictValue, str]:
@@ -106,8 +110,8 @@ class Float:
     def __eq__(self, other: object) -> bool:
         return isinstance(other, Number) and self.value == other.value
 
-    def as_key(self) -> typing.Generator[Value, StrictValue, int]:
-        return hash(self.value)
+    def as_key(self) -> typing.Generator[Value, StrictValue, Key]:
+        return self.value
         yield
 
     def format(self) -> typing.Generator[Value, StrictValue, str]:
@@ -119,8 +123,8 @@ class Float:
 class Boolean:
     value: bool
 
-    def as_key(self) -> typing.Generator[Value, StrictValue, int]:
-        return hash(("평범한 한글/논릿값", self.value))
+    def as_key(self) -> typing.Generator[Value, StrictValue, Key]:
+        return ("평범한 한글/논릿값", self.value)
         yield
 
     def format(self) -> typing.Generator[Value, StrictValue, str]:
@@ -131,20 +135,20 @@ class Boolean:
 @dataclasses.dataclass
 class List:
     value: tuple[Value, ...]
-    _key: int | None = dataclasses.field(
+    _key: Key | None = dataclasses.field(
         default=None, init=False, compare=False
     )
     _format: str | None = dataclasses.field(
         default=None, init=False, compare=False
     )
 
-    def as_key(self) -> typing.Generator[Value, StrictValue, int]:
+    def as_key(self) -> typing.Generator[Value, StrictValue, Key]:
         if self._key is None:
-            keys: list[int] = []
+            keys: list[Key] = []
             for item in self.value:
                 item = yield item
                 keys.append((yield from item.as_key()))
-            self._key = hash(("평범한 한글/목록", tuple(keys)))
+            self._key = ("평범한 한글/목록", tuple(keys))
         return self._key
 
     def format(self) -> typing.Generator[Value, StrictValue, str]:
@@ -161,8 +165,8 @@ class List:
 class String:
     value: str
 
-    def as_key(self) -> typing.Generator[Value, StrictValue, int]:
-        return hash(("평범한 한글/문자열", self.value))
+    def as_key(self) -> typing.Generator[Value, StrictValue, Key]:
+        return ("평범한 한글/문자열", self.value)
         yield
 
     def format(self) -> typing.Generator[Value, StrictValue, str]:
@@ -177,8 +181,8 @@ class Bytes:
         default=None, init=False, compare=False
     )
 
-    def as_key(self) -> typing.Generator[Value, StrictValue, int]:
-        return hash(("평범한 한글/바이트열", self.value))
+    def as_key(self) -> typing.Generator[Value, StrictValue, Key]:
+        return ("평범한 한글/바이트열", self.value)
         yield
 
     def format(self) -> typing.Generator[Value, StrictValue, str]:
@@ -194,20 +198,20 @@ class ErrorValue:
     metadatas: tuple[Metadata, ...]
     message: str
     value: tuple[StrictValue, ...]
-    _key: int | None = dataclasses.field(
+    _key: Key | None = dataclasses.field(
         default=None, init=False, compare=False
     )
     _format: str | None = dataclasses.field(
         default=None, init=False, compare=False
     )
 
-    def as_key(self) -> typing.Generator[Value, StrictValue, int]:
+    def as_key(self) -> typing.Generator[Value, StrictValue, Key]:
         if self._key is None:
-            keys: list[int] = []
+            keys: list[Key] = []
             for item in self.value:
                 item = yield item
                 keys.append((yield from item.as_key()))
-            self._key = hash(("평범한 한글/예외", tuple(keys)))
+            self._key = ("평범한 한글/예외", tuple(keys))
         return self._key
 
     def format(self) -> typing.Generator[Value, StrictValue, str]:
@@ -222,8 +226,8 @@ class ErrorValue:
 
 @dataclasses.dataclass
 class Nil:
-    def as_key(self) -> typing.Generator[Value, StrictValue, int]:
-        return hash(("평범한 한글/빈값", None))
+    def as_key(self) -> typing.Generator[Value, StrictValue, Key]:
+        return ("평범한 한글/빈값", None)
         yield
 
     def format(self) -> typing.Generator[Value, StrictValue, str]:
@@ -252,8 +256,8 @@ class Complex:
         im_str = "" if abs(im) == 1 else str(abs(im))
         return "{}{}{}i".format(re_str if re else "", minus_str, im_str)
 
-    def as_key(self) -> typing.Generator[Value, StrictValue, int]:
-        return hash(self.value)
+    def as_key(self) -> typing.Generator[Value, StrictValue, Key]:
+        return self.value
         yield
 
     def format(self) -> typing.Generator[Value, StrictValue, str]:
@@ -264,20 +268,20 @@ class Complex:
 class Dict:
     def __init__(
         self,
-        table: typing.Sequence[tuple[StrictValue, int, Value]],
+        table: typing.Sequence[tuple[StrictValue, Key, Value]],
     ):
         self.table = tuple(table)
         self.mapping = {k: v for _, k, v in table}
         self._key = None
         self._format = None
 
-    def as_key(self) -> typing.Generator[Value, StrictValue, int]:
+    def as_key(self) -> typing.Generator[Value, StrictValue, Key]:
         if self._key is None:
-            keys: list[tuple[int, int]] = []
+            keys: list[tuple[Key, Key]] = []
             for key, value in self.mapping.items():
                 v = yield from (yield value).as_key()
                 keys.append((key, v))
-            self._key = hash(("평범한 한글/사전", frozenset(keys)))
+            self._key = ("평범한 한글/사전", frozenset(keys))
         return self._key
 
     def format(self) -> typing.Generator[Value, StrictValue, str]:
@@ -315,13 +319,13 @@ class IO:
         self.continuation = continuation
         self._key = None
 
-    def as_key(self) -> typing.Generator[Value, StrictValue, int]:
+    def as_key(self) -> typing.Generator[Value, StrictValue, Key]:
         if self._key is None:
-            keys: list[int] = []
+            keys: list[Key] = []
             for item in self._argv:
                 item = yield item
                 keys.append((yield from item.as_key()))
-            self._key = hash(("평범한 한글/드나듦", self._inst, tuple(keys)))
+            self._key = ("평범한 한글/드나듦", self._inst, tuple(keys))
         return self._key
 
     def format(self) -> typing.Generator[Value, StrictValue, str]:
@@ -338,8 +342,8 @@ class Function(abc.ABC):
     def __init__(self, adj: str = ""):
         self._str = f"<{adj} 함수>"
 
-    def as_key(self) -> typing.Generator[Value, StrictValue, int]:
-        return hash(("평범한 한글/함수", id(self)))
+    def as_key(self) -> typing.Generator[Value, StrictValue, Key]:
+        return ("평범한 한글/함수", id(self))
         yield
 
     def format(self) -> typing.Generator[Value, StrictValue, str]:
